@@ -118,3 +118,32 @@ type EPDeep struct {
 	*EPOutSmall
 	Z int8
 }
+
+// Member names that differ only in case, promoted through an embedded pointer, an embedded value
+// and a pointer inside an embedded value (all promoted members of one embedded pointer share the
+// pointer's offset in the outer struct).
+type CollInner struct {
+	Ab int    `json:"Ab"`
+	Lo int    `json:"ab"`
+	Cd string `json:"CD"`
+	Ce string `json:"cd"`
+	Q  int
+}
+type CollMid struct{ *CollInner }
+type EmbPtrColl struct {
+	*CollInner
+	Z int
+}
+type EmbValColl struct {
+	CollInner
+	Z int
+}
+type EmbValPtrColl struct {
+	CollMid
+	Z int
+}
+type EmbTwoPtrColl struct {
+	*CollInner
+	*PtrCaseInner
+	Z int
+}
